@@ -430,6 +430,9 @@ void c17_open (const char *path) {
     perror (path);
     exit (2);
   }
+#ifdef C17_ASAN
+  __asan_set_death_callback (log_flush); /* keep the partial trace when ASan aborts the process */
+#endif
   ss.ss_sp = altstack;
   ss.ss_size = sizeof (altstack);
   ss.ss_flags = 0;
